@@ -19,7 +19,7 @@
    the behaviour). *)
 From Coq Require Import Lia.
 From Coq Require Import Permutation.
-From Torf Require Import Base Pipeline PipelineProofs FlowProofs ThreadProofs DeadlockProofs ConservationProofs ReaderDoneProofs DrainProofs TerminationProofs VerifyTrueProofs VerifyFalseProofs CompleteProofs PipeExplore PipeExploreProofs NormProofs PipeConfigs.
+From Torf Require Import Base Pipeline PipelineProofs FlowProofs ThreadProofs DeadlockProofs ConservationProofs ReaderDoneProofs DrainProofs TerminationProofs VerifyTrueProofs VerifyFalseProofs CompleteProofs ExceptionProofs LastCallProofs LastCallVerify LastCallVerdict LastCallQuietGen ReportProofs NoCallbackProofs NoCallbackGenProofs ScheduleIndependent PipeExplore PipeExploreProofs NormProofs PipeConfigs.
 Open Scope Z_scope.
 
 (* soundness of the exploration: what the checker accepts holds for every reachable state *)
@@ -128,6 +128,18 @@ Theorem C03_generate_unstopped_returns_true : forall c s r hs,
   s_result s = Some r -> verdict r -> s_stop s = false -> r = ResTrue.
 Proof. exact generate_unstopped_returns_true. Qed.
 Print Assumptions C03_generate_unstopped_returns_true.
+
+(* UNBOUNDED, the capstone -- "hashing is schedule-independent": two runs of the same hashing job over readable content,
+   under ANY two schedules and clocks, with any number of hashers, that return a verdict return the same one (True)
+   and have stored the same hashes, the reference hashes in piece order.  For runs without a callback or with a
+   passive one (a cancelling callback makes the outcome depend on when it cancels, by design). *)
+Theorem C03_generate_schedule_independent : forall c s1 s2 r1 r2 hs,
+  (1 <= cf_hashers c)%nat -> cf_verify c = None -> (cf_plan c = CbAbsent \/ cf_plan c = CbQuiet) ->
+  yielded (cf_items c) = map RPiece hs -> cf_total c = zlen hs ->
+  reach c s1 -> reach c s2 -> s_result s1 = Some r1 -> s_result s2 = Some r2 -> verdict r1 -> verdict r2 ->
+  r1 = r2 /\ sorted_hashes (s_hashes s1) = sorted_hashes (s_hashes s2).
+Proof. exact generate_schedule_independent. Qed.
+Print Assumptions C03_generate_schedule_independent.
 
 (* non-vacuity: six pieces, two hashers: states in the middle of a run, pieces spread over the queues *)
 Example C03_no_piece_lost_example :
